@@ -147,6 +147,7 @@ func cmdCheck(args []string) int {
 		}
 		fv := newFV(w, fi)
 		fv.findings = mine
+		fv.prop = id
 		tg := time.Now()
 		err := fv.verify()
 		r := &funcResult{fi: fi, fv: fv, err: err, secs: time.Since(tg).Seconds()}
@@ -199,10 +200,7 @@ func cmdCheck(args []string) int {
 			toSolve = append(toSolve, o)
 		}
 	}
-	parallelDo(16, len(toSolve), func(i int) {
-		o := toSolve[i]
-		o.Result = solve(scratch, o.Name, o.Query, tmo, o.Vacuity)
-	})
+	solveAll(scratch, toSolve, tmo)
 	// classify
 	discharged := 0
 	byBackend := map[string]map[string]float64{}
